@@ -117,4 +117,131 @@ Request(op, a) == EncodeLayout(Req[op], Fields(op, a))
 
 \* what must be handed to the transport by a call: nothing when refused, else exactly the request
 Sent(op, a) == IF Reject(op, a) THEN <<>> ELSE <<Request(op, a)>>
+
+\* ---- Interpret: what a reply means ---------------------------------------------------------------
+(* `dec` is Wire!DecodeFields(Rsp[op], reply): per field [dom, vals] (Wire.tla). A result component *)
+(* x taken from field `name` is acceptable when the field is a don't-care or x is one of the values  *)
+(* the field may be reported as (its protocol decoding, or its zero "no value" when it is outside    *)
+(* its domain).                                                                                      *)
+FD(op, dec, name) == dec[FieldIndex(Rsp[op], name)]
+M1(op, dec, x, name) == LET d == FD(op, dec, name) IN d.dom = "any" \/ x \in d.vals
+\* the (single) in-domain value of a field that is in its domain
+ValOf(op, dec, name) == CHOOSE v \in FD(op, dec, name).vals : TRUE
+IsIn(op, dec, name) == FD(op, dec, name).dom = "in"
+
+\* an error is an acceptable outcome when some field is outside its domain (or a don't-care)
+SomeFieldOut(dec) == \E k \in 1..Len(dec) : dec[k].dom \in {"out", "any"}
+
+BoolRet(op) == CASE op = "RefreshTaskList" -> "Refreshed"
+                 [] op = "SetEventIndex" -> "Changed"
+                 [] OTHER -> "Succeeded"
+BoolOps == {"SetListener", "PutCard", "DeleteCard", "DeleteCards", "SetTimeProfile", "ClearTimeProfiles", "ClearTaskList",
+            "AddTask", "RefreshTaskList", "RecordSpecialEvents", "SetDoorPasscodes", "SetPCControl", "SetInterlock",
+            "ActivateKeypads", "RestoreDefaultParameters"}
+
+PairsAre(pairs, vals) == Len(pairs) = Len(vals) /\ \A i \in 1..Len(vals) : pairs[i][1] = i
+CardOK(op, dec, r) ==
+  /\ r.t = "card" /\ M1(op, dec, r.n, "CardNumber") /\ M1(op, dec, r.from, "From") /\ M1(op, dec, r.to, "To")
+  /\ Len(r.doors) = 4 /\ \A i \in 1..4 : r.doors[i][1] = i
+  /\ M1(op, dec, r.doors[1][2], "Door1") /\ M1(op, dec, r.doors[2][2], "Door2")
+  /\ M1(op, dec, r.doors[3][2], "Door3") /\ M1(op, dec, r.doors[4][2], "Door4")
+  /\ M1(op, dec, r.pin, "PIN")
+
+\* controller date + time of a status, combined into one civil date-time
+SysDTOK(op, dec, x) ==
+  LET d == FD(op, dec, "SystemDate") t == FD(op, dec, "SystemTime") IN
+  IF d.dom = "any" \/ t.dom = "any" THEN TRUE
+  ELSE IF d.dom = "out" \/ t.dom = "out" THEN x = ZeroDT
+  ELSE LET dv == CHOOSE v \in d.vals : TRUE tv == CHOOSE v \in t.vals : TRUE IN
+       IF dv.t = "zero" THEN x = ZeroDT ELSE x = DT(dv.y, dv.m, dv.d, tv.h, tv.mi, tv.s)
+
+StatusOK(op, dec, r) ==
+  /\ r.t = "status" /\ M1(op, dec, r.serial, "SerialNumber")
+  /\ Len(r.doorstate) = 4 /\ Len(r.doorbutton) = 4
+  /\ \A i \in 1..4 : r.doorstate[i][1] = i /\ r.doorbutton[i][1] = i
+  /\ M1(op, dec, r.doorstate[1][2], "Door1State") /\ M1(op, dec, r.doorstate[2][2], "Door2State")
+  /\ M1(op, dec, r.doorstate[3][2], "Door3State") /\ M1(op, dec, r.doorstate[4][2], "Door4State")
+  /\ M1(op, dec, r.doorbutton[1][2], "Door1Button") /\ M1(op, dec, r.doorbutton[2][2], "Door2Button")
+  /\ M1(op, dec, r.doorbutton[3][2], "Door3Button") /\ M1(op, dec, r.doorbutton[4][2], "Door4Button")
+  /\ M1(op, dec, r.syserror, "SystemError") /\ SysDTOK(op, dec, r.sysdt)
+  /\ M1(op, dec, r.seq, "SequenceId") /\ M1(op, dec, r.special, "SpecialInfo")
+  /\ M1(op, dec, r.relays, "RelayState") /\ M1(op, dec, r.inputs, "InputState")
+  \* the status event is present exactly when its index is non-zero
+  /\ (IF ValOf(op, dec, "EventIndex") = <<0, 0>> THEN r.event.t = "none"
+      ELSE /\ r.event.t = "ev" /\ M1(op, dec, r.event.index, "EventIndex") /\ M1(op, dec, r.event.type, "EventType")
+           /\ M1(op, dec, r.event.granted, "Granted") /\ M1(op, dec, r.event.door, "Door")
+           /\ M1(op, dec, r.event.direction, "Direction") /\ M1(op, dec, r.event.card, "CardNumber")
+           /\ M1(op, dec, r.event.timestamp, "Timestamp") /\ M1(op, dec, r.event.reason, "Reason"))
+
+SegOK(op, dec, seg, k, ns, ne) == seg[1] = k /\ M1(op, dec, seg[2].start, ns) /\ M1(op, dec, seg[2].end, ne)
+ProfileOK(op, dec, r) ==
+  /\ r.t = "profile" /\ M1(op, dec, r.id, "ProfileID") /\ M1(op, dec, r.linked, "LinkedProfileID")
+  /\ M1(op, dec, r.from, "From") /\ M1(op, dec, r.to, "To")
+  /\ Len(r.weekdays) = 7 /\ \A i \in 1..7 : r.weekdays[i][1] = i - 1
+  /\ M1(op, dec, r.weekdays[1][2], "Sunday") /\ M1(op, dec, r.weekdays[2][2], "Monday") /\ M1(op, dec, r.weekdays[3][2], "Tuesday")
+  /\ M1(op, dec, r.weekdays[4][2], "Wednesday") /\ M1(op, dec, r.weekdays[5][2], "Thursday") /\ M1(op, dec, r.weekdays[6][2], "Friday")
+  /\ M1(op, dec, r.weekdays[7][2], "Saturday")
+  /\ Len(r.segments) = 3
+  /\ SegOK(op, dec, r.segments[1], 1, "Segment1Start", "Segment1End")
+  /\ SegOK(op, dec, r.segments[2], 2, "Segment2Start", "Segment2End")
+  /\ SegOK(op, dec, r.segments[3], 3, "Segment3Start", "Segment3End")
+
+\* name of the configured controller with this serial number ("" when not configured)
+CfgName(cfg, serial) ==
+  IF \E i \in 1..Len(cfg.devices) : cfg.devices[i].serial = serial
+    THEN cfg.devices[CHOOSE i \in 1..Len(cfg.devices) : cfg.devices[i].serial = serial].name ELSE ""
+
+DeviceOK(op, dec, cfg, r) ==
+  /\ r.t = "device" /\ M1(op, dec, r.serial, "SerialNumber") /\ M1(op, dec, r.ip, "IpAddress")
+  /\ M1(op, dec, r.mask, "SubnetMask") /\ M1(op, dec, r.gw, "Gateway") /\ M1(op, dec, r.mac, "MacAddress")
+  /\ M1(op, dec, r.version, "Version") /\ M1(op, dec, r.date, "Date")
+  /\ r.name = CfgName(cfg, ValOf(op, dec, "SerialNumber"))
+  /\ r.addr.t = "ap" /\ M1(op, dec, r.addr.ip, "IpAddress")        \* (the derived port is a don't-care for GetDevice)
+
+\* sentinel verdicts that precede the value: "nil" (no such record), "err" (documented error), "val"
+Sentinel(op, a, dec) ==
+  CASE op = "GetCardByIndex" ->
+         (IF ValOf(op, dec, "CardNumber") \in {<<0, 0>>, <<65535, 65535>>} THEN {"nil"} ELSE {"val"})
+    [] op = "GetCardByID" ->
+         LET n == ValOf(op, dec, "CardNumber") IN
+         IF n = <<0, 0>> THEN {"nil"}
+         ELSE IF n = <<65535, 65535>> THEN (IF a.card = n THEN {"nil", "err", "val"} ELSE {"nil", "err"})
+         ELSE IF n # a.card THEN {"err"} ELSE {"val"}
+    [] op = "GetEvent" ->
+         (IF ValOf(op, dec, "Type") = 255 THEN {"err"}
+          ELSE IF ValOf(op, dec, "Index") = <<0, 0>> THEN {"nil"} ELSE {"val"})
+    [] op = "GetTimeProfile" ->
+         LET id == ValOf(op, dec, "ProfileID") IN
+         IF id = 0 THEN {"nil"} ELSE IF id # a.profile THEN {"err"} ELSE {"val"}
+    [] OTHER -> {"val"}
+
+ValueOK(op, a, cfg, dec, r) ==
+  CASE op \in BoolOps -> r.t = "bool" /\ M1(op, dec, r.v, BoolRet(op))
+    [] op = "GetCards" -> r.t = "u32" /\ M1(op, dec, r.v, "Records")
+    [] op = "OpenDoor" -> r.t = "result" /\ M1(op, dec, r.serial, "SerialNumber") /\ M1(op, dec, r.ok, "Succeeded")
+    [] op = "GetDevice" -> DeviceOK(op, dec, cfg, r)
+    [] op = "GetListener" -> r.t = "listener" /\ M1(op, dec, [ip |-> r.ip, port |-> r.port], "AddrPort") /\ M1(op, dec, r.interval, "Interval")
+    [] op \in {"GetTime", "SetTime"} -> r.t = "time" /\ M1(op, dec, r.serial, "SerialNumber") /\ M1(op, dec, r.dt, "DateTime")
+    [] op \in {"GetDoorControlState", "SetDoorControlState"} ->
+         r.t = "dcs" /\ M1(op, dec, r.serial, "SerialNumber") /\ M1(op, dec, r.door, "Door")
+         /\ M1(op, dec, r.state, "ControlState") /\ M1(op, dec, r.delay, "Delay")
+    [] op = "GetStatus" -> StatusOK(op, dec, r)
+    [] op \in {"GetCardByIndex", "GetCardByID"} -> CardOK(op, dec, r)
+    [] op = "GetTimeProfile" -> ProfileOK(op, dec, r)
+    [] op = "GetEvent" ->
+         r.t = "event" /\ M1(op, dec, r.serial, "SerialNumber") /\ M1(op, dec, r.index, "Index") /\ M1(op, dec, r.type, "Type")
+         /\ M1(op, dec, r.granted, "Granted") /\ M1(op, dec, r.door, "Door") /\ M1(op, dec, r.direction, "Direction")
+         /\ M1(op, dec, r.card, "CardNumber") /\ M1(op, dec, r.timestamp, "Timestamp") /\ M1(op, dec, r.reason, "Reason")
+    [] op = "GetEventIndex" -> r.t = "evindex" /\ M1(op, dec, r.serial, "SerialNumber") /\ M1(op, dec, r.index, "Index")
+    [] op = "SetEventIndex" -> r.t = "evindexresult" /\ M1(op, dec, r.serial, "SerialNumber") /\ r.index = a.index /\ M1(op, dec, r.changed, "Changed")
+
+\* Is `r` an acceptable result of operation `op` with arguments `a` for the (header-correct) reply `msg`?
+ResultOK(op, a, cfg, msg, r) ==
+  LET dec == DecodeFields(Rsp[op], msg) s == Sentinel(op, a, dec) IN
+  CASE r.t = "err" -> SomeFieldOut(dec) \/ "err" \in s
+    [] r.t = "nil" -> "nil" \in s
+    [] OTHER -> "val" \in s /\ ValueOK(op, a, cfg, dec, r)
+
+\* SetAddress: controllers do not reply; the call succeeds once the request is sent
+SetAddressResult(a) == [t |-> "result", serial |-> a.serial, ok |-> TRUE]
 ==========================================================================
